@@ -213,7 +213,9 @@ def collect_R(pid, tier, seed_for_replay=1):
 G_FUNCS = {
     "C01": ["g_parse_runs"], "C05": ["g_parse_runs"], "C03": ["g_range_table"], "C07": ["g_range_table"],
     "C17": ["lemma_canonical_order", "sort_site"], "C18": ["lemma_canonical_order", "sort_site"],
+    "C11": ["g_disc_init", "g_disc_step", "lemma_disc_sequence", "disc_threading"],
 }
+G_DISC = ("g_disc_init", "g_disc_step", "lemma_disc_sequence", "disc_threading")
 
 
 def collect_G(pid, tier):
@@ -221,11 +223,43 @@ def collect_G(pid, tier):
     obs = []
     meta = {"cache_hit": r.get("cache_hit"), "layer_wall_s": r.get("wall_s", 0), "slices": r.get("slices"), "quote_templates": r.get("templates"),
             "assumption_scan": r.get("assumptions")}
+    names = G_FUNCS.get(pid, [])
+    disc = r.get("disc") or {}
+    if any(n in G_DISC for n in names):
+        # second file of layer G (discriminant evaluation of parse_values): own verdicts
+        meta["disc_slices"] = disc.get("slices")
+        meta["disc_assumption_scan"] = disc.get("assumptions")
+        meta["disc_threading"] = disc.get("threading")
+        meta["layer_wall_s"] = (meta.get("layer_wall_s") or 0) + (disc.get("wall_s") or 0)
+        if disc.get("problems") or disc.get("error") or not disc.get("functions"):
+            obs.append(Ob("G/disc-slices", "undecided", "verus+z3", "; ".join(disc.get("problems", [])) + (disc.get("error") or "")))
+        else:
+            dcan = disc["functions"].get("__vx_canary_disc", {})
+            for name in names:
+                if name not in G_DISC:
+                    continue
+                if name == "disc_threading":
+                    th = disc.get("threading") or {}
+                    obs.append(Ob("G/disc_threading", "ok" if th.get("ok") else "undecided", "vx-structural", "; ".join(th.get("problems", [])),
+                                  sample={"what": th.get("what")}))
+                    continue
+                f = disc["functions"].get(name)
+                if f is None:
+                    obs.append(Ob("G/" + name, "undecided", "verus+z3", "function missing from the verus result"))
+                    continue
+                st = {"verified": "ok", "failed": "failed", "undecided": "undecided"}[f["status"]]
+                if st == "ok" and dcan.get("status") != "failed":
+                    st = "undecided"
+                obs.append(Ob("G/" + name, st, "verus+z3", f.get("reason", ""), f.get("time_ms", 0),
+                              sample={"function": name, "slice_of": "/repo/src/parser/values.rs (verbatim)"}, kinds=f.get("kinds"), body_hash=f.get("body_hash")))
+        names = [n for n in names if n not in G_DISC]
+        if not names:
+            return obs, meta
     if r.get("problems") or r.get("error"):
         obs.append(Ob("G/slices", "undecided", "verus+z3", "; ".join(r.get("problems", [])) + (r.get("error") or "")))
         return obs, meta
     canary = r["functions"].get("__vx_canary", {})
-    for name in G_FUNCS.get(pid, []):
+    for name in names:
         if name == "sort_site":
             ok = r.get("sort_site_ok") and r.get("hashmap_insert_checked")
             obs.append(Ob("G/sort_site", "ok" if ok else "undecided", "vx-structural",
